@@ -620,5 +620,268 @@ theorem gear_ratio_too_few (teeth : List F) (h : teeth.length < 2) :
   | [], _ => rfl
   | [a], _ => rfl
 
+/-! ## components of the `State` operators (used to lift scalar facts to states) -/
+theorem comp_add (k : PosDer) (a b : State F) : comp k (State.add a b) = comp k a + comp k b := by cases k <;> rfl
+theorem comp_sub (k : PosDer) (a b : State F) : comp k (State.sub a b) = comp k a - comp k b := by cases k <;> rfl
+theorem comp_neg (k : PosDer) (a : State F) : comp k (State.neg a) = - comp k a := by cases k <;> rfl
+theorem comp_mulF (k : PosDer) (a : State F) (x : F) : comp k (State.mulF a x) = comp k a * x := by cases k <;> rfl
+theorem comp_divF (k : PosDer) (a : State F) (x : F) : comp k (State.divF a x) = comp k a / x := by cases k <;> rfl
+
+/-- inverter, both reads present: the two states held afterwards are exact negatives of each other
+(`side2 = −side1`), true for any scalar type because the code negates the value it has just written -/
+theorem invert_satisfies_constraint (w : World F) (i1 i2 : Nat) (d1 d2 : Datum (State F)) (hd : i1 ≠ i2)
+    (h1 : w.getState i1 = some d1) (h2 : w.getState i2 = some d2) :
+    ∃ s1 s2 : State F,
+      ((Invert.update w i1 i2).t i1).state = some ⟨max d1.time d2.time, s1⟩ ∧
+      ((Invert.update w i1 i2).t i2).state = some ⟨max d1.time d2.time, s2⟩ ∧
+      s2 = State.neg s1 ∧ ∀ k, comp k s2 = - comp k s1 := by
+  obtain ⟨_, ha, hb, _⟩ := invert_update_both w i1 i2 d1 d2 hd h1 h2
+  exact ⟨_, _, ha, hb, rfl, fun k => comp_neg k _⟩
+
+/-- axle: after an update in which some terminal read a state, all terminals of the axle hold the same datum -/
+theorem axle_satisfies_constraint (w : World F) (is : List Nat) (h : ∃ i ∈ is, w.getState i ≠ none) :
+    ∀ i ∈ is, ∀ j ∈ is, ((Axle.update w is).t i).state = ((Axle.update w is).t j).state ∧
+      ((Axle.update w is).t i).state ≠ none := by
+  obtain ⟨_, hb, _⟩ := axle_update_broadcast w is h
+  intro i hi j hj
+  rw [hb i hi, hb j hj]; simp
+
 end S
+
+/-! # Tier R: ordered field, exact scalars -/
+section R
+variable {F : Type} [Field F] [LinearOrder F] [IsStrictOrderedRing F] [FloatLike F] [ExactScalar F]
+
+/-! ## scalar optimisation lemmas -/
+
+/-- inverter: `(a, −a)` with `a = (x − y)/2` is the point of the line `{(a', −a')}` closest to `(x, y)` -/
+theorem scalar_invert_ls (x y a' : F) :
+    (x - (x - y) / 2) ^ 2 + (y - -((x - y) / 2)) ^ 2 ≤ (x - a') ^ 2 + (y - -a') ^ 2 := by
+  nlinarith [sq_nonneg (a' - (x - y) / 2)]
+
+/-- gear train: `(a, r·a)` with `a = (x + y·r)/(r·r + 1)` is the point of the line `{(a', r·a')}` closest to `(x, y)` -/
+theorem scalar_gear_ls (r x y a' : F) :
+    (x - (x + y * r) / (r * r + 1)) ^ 2 + (y - (x + y * r) * r / (r * r + 1)) ^ 2
+      ≤ (x - a') ^ 2 + (y - r * a') ^ 2 := by
+  have hD : (0 : F) < r * r + 1 := by have := mul_self_nonneg r; linarith
+  have key : (x - a') ^ 2 + (y - r * a') ^ 2
+      = (x - (x + y * r) / (r * r + 1)) ^ 2 + (y - (x + y * r) * r / (r * r + 1)) ^ 2
+        + (r * r + 1) * (a' - (x + y * r) / (r * r + 1)) ^ 2 := by
+    field_simp
+    ring
+  rw [key]
+  have : 0 ≤ (r * r + 1) * (a' - (x + y * r) / (r * r + 1)) ^ 2 := by positivity
+  linarith
+
+/-- differential, all branches trusted: the written triple is the point of the plane `{(a', b', a' + b')}`
+closest to `(x, y, z)` -/
+theorem scalar_diff_ls (x y z a' b' : F) :
+    (x - (x * 2 - y + z) / 3) ^ 2 + (y - (-x + y * 2 + z) / 3) ^ 2 + (z - (x + y + z * 2) / 3) ^ 2
+      ≤ (x - a') ^ 2 + (y - b') ^ 2 + (z - (a' + b')) ^ 2 := by
+  have key : (x - a') ^ 2 + (y - b') ^ 2 + (z - (a' + b')) ^ 2
+      = (x - (x * 2 - y + z) / 3) ^ 2 + (y - (-x + y * 2 + z) / 3) ^ 2 + (z - (x + y + z * 2) / 3) ^ 2
+        + ((a' - (x * 2 - y + z) / 3) ^ 2 + (b' - (-x + y * 2 + z) / 3) ^ 2
+           + ((a' - (x * 2 - y + z) / 3) + (b' - (-x + y * 2 + z) / 3)) ^ 2) := by
+    ring
+  rw [key]
+  have : 0 ≤ (a' - (x * 2 - y + z) / 3) ^ 2 + (b' - (-x + y * 2 + z) / 3) ^ 2
+           + ((a' - (x * 2 - y + z) / 3) + (b' - (-x + y * 2 + z) / 3)) ^ 2 := by positivity
+  linarith
+
+/-- sum of squared deviations of a list of scalars from `m` -/
+def sqDev (xs : List F) (m : F) : F := (xs.map (fun x => (x - m) ^ 2)).sum
+
+theorem sqDev_cons (x : F) (xs : List F) (m : F) : sqDev (x :: xs) m = (x - m) ^ 2 + sqDev xs m := by
+  simp [sqDev]
+
+/-- for every list length: moving the centre from `m` to `m'` -/
+theorem sqDev_shift (xs : List F) (m m' : F) :
+    sqDev xs m' = sqDev xs m + 2 * (m - m') * (xs.sum - xs.length * m) + xs.length * (m - m') ^ 2 := by
+  induction xs with
+  | nil => simp [sqDev]
+  | cons x xs ih =>
+    rw [sqDev_cons, sqDev_cons, ih]
+    simp only [List.sum_cons, List.length_cons, Nat.cast_succ]
+    ring
+
+/-- axle: the mean minimises the sum of squared deviations, for a list of any positive length;
+the excess of any other centre is exactly `n·(m − m')²` -/
+theorem scalar_mean_ls (xs : List F) (hne : xs ≠ []) (m' : F) :
+    sqDev xs m' = sqDev xs (xs.sum / xs.length) + xs.length * (xs.sum / xs.length - m') ^ 2 ∧
+    sqDev xs (xs.sum / xs.length) ≤ sqDev xs m' := by
+  have hn : (0 : F) < xs.length := by
+    have : 0 < xs.length := List.length_pos_iff.2 hne
+    exact_mod_cast this
+  have h0 : xs.sum - xs.length * (xs.sum / xs.length) = 0 := by
+    field_simp; ring
+  have key := sqDev_shift xs (xs.sum / xs.length) m'
+  rw [h0] at key
+  have hk : sqDev xs m' = sqDev xs (xs.sum / xs.length) + xs.length * (xs.sum / xs.length - m') ^ 2 := by
+    rw [key]; ring
+  refine ⟨hk, ?_⟩
+  have : 0 ≤ (xs.length : F) * (xs.sum / xs.length - m') ^ 2 := by positivity
+  linarith
+
+/-- squared distance of two states (sum over position, velocity, acceleration) -/
+def sqDist (a b : State F) : F :=
+  (a.position - b.position) ^ 2 + (a.velocity - b.velocity) ^ 2 + (a.acceleration - b.acceleration) ^ 2
+
+theorem sqDist_eq (a b : State F) :
+    sqDist a b = (comp .position a - comp .position b) ^ 2 + (comp .velocity a - comp .velocity b) ^ 2
+      + (comp .acceleration a - comp .acceleration b) ^ 2 := rfl
+
+/-! ## inverter (tier R) -/
+
+/-- B2, inverter: the pair of states held after the update is `(s1, −s1)` and, in every component, is the
+least-squares projection of the pair of reads onto the constraint `side2 = −side1`. -/
+theorem invert_least_squares (w : World F) (i1 i2 : Nat) (d1 d2 : Datum (State F)) (hd : i1 ≠ i2)
+    (h1 : w.getState i1 = some d1) (h2 : w.getState i2 = some d2) :
+    ∃ s1 s2 : State F,
+      ((Invert.update w i1 i2).t i1).state = some ⟨max d1.time d2.time, s1⟩ ∧
+      ((Invert.update w i1 i2).t i2).state = some ⟨max d1.time d2.time, s2⟩ ∧
+      (∀ k, comp k s2 = - comp k s1) ∧
+      (∀ k, comp k s1 = (comp k d1.value - comp k d2.value) / 2) ∧
+      (∀ (k : PosDer) (a' : F),
+        (comp k d1.value - comp k s1) ^ 2 + (comp k d2.value - comp k s2) ^ 2
+          ≤ (comp k d1.value - a') ^ 2 + (comp k d2.value - -a') ^ 2) ∧
+      (∀ p1 p2 : State F, p2 = State.neg p1 →
+        sqDist d1.value s1 + sqDist d2.value s2 ≤ sqDist d1.value p1 + sqDist d2.value p2) := by
+  obtain ⟨_, ha, hb, _⟩ := invert_update_both w i1 i2 d1 d2 hd h1 h2
+  have hc : ∀ (k : PosDer) (a' : F),
+      (comp k d1.value - comp k (State.divF (State.sub d1.value d2.value) c2)) ^ 2
+        + (comp k d2.value - comp k (State.neg (State.divF (State.sub d1.value d2.value) c2))) ^ 2
+        ≤ (comp k d1.value - a') ^ 2 + (comp k d2.value - -a') ^ 2 := by
+    intro k a'
+    simp only [comp_neg, comp_divF, comp_sub, c2_eq]
+    exact scalar_invert_ls _ _ _
+  refine ⟨_, _, ha, hb, fun k => comp_neg k _, ?_, hc, ?_⟩
+  · intro k; simp only [comp_divF, comp_sub, c2_eq]
+  · intro p1 p2 hp
+    subst hp
+    have e1 := hc .position (comp .position p1)
+    have e2 := hc .velocity (comp .velocity p1)
+    have e3 := hc .acceleration (comp .acceleration p1)
+    simp only [sqDist_eq, comp_neg] at *
+    linarith
+
+/-- B3, inverter: reads that already satisfy `side2 = −side1` are reproduced unchanged -/
+theorem invert_fixed_on_constraint (w : World F) (i1 i2 : Nat) (d1 d2 : Datum (State F)) (hd : i1 ≠ i2)
+    (h1 : w.getState i1 = some d1) (h2 : w.getState i2 = some d2) (hc : d2.value = State.neg d1.value) :
+    ((Invert.update w i1 i2).t i1).state = some ⟨max d1.time d2.time, d1.value⟩ ∧
+    ((Invert.update w i1 i2).t i2).state = some ⟨max d1.time d2.time, d2.value⟩ := by
+  obtain ⟨_, ha, hb, _⟩ := invert_update_both w i1 i2 d1 d2 hd h1 h2
+  have e : State.divF (State.sub d1.value d2.value) (c2 : F) = d1.value := by
+    apply state_ext; intro k
+    simp only [hc, comp_neg, comp_divF, comp_sub, c2_eq]; ring
+  rw [ha, hb, e, hc]
+  exact ⟨rfl, rfl⟩
+
+/-- one-sided propagation through an inverter: the value written on the empty side together with the read
+on the other side satisfies the constraint in both directions -/
+theorem invert_one_sided_constraint (w : World F) (i1 i2 : Nat) (d : Datum (State F)) :
+    (w.getState i1 = none → w.getState i2 = some d →
+      ∃ s1, ((Invert.update w i1 i2).t i1).state = some ⟨d.time, s1⟩ ∧ s1 = State.neg d.value ∧
+        d.value = State.neg s1) ∧
+    (w.getState i1 = some d → w.getState i2 = none →
+      ∃ s2, ((Invert.update w i1 i2).t i2).state = some ⟨d.time, s2⟩ ∧ s2 = State.neg d.value) := by
+  constructor
+  · intro h1 h2
+    obtain ⟨_, ha, _⟩ := invert_update_one_right w i1 i2 d h1 h2
+    refine ⟨_, ha, rfl, ?_⟩
+    apply state_ext; intro k; simp only [comp_neg, neg_neg]
+  · intro h1 h2
+    obtain ⟨_, ha, _⟩ := invert_update_one_left w i1 i2 d h1 h2
+    exact ⟨_, ha, rfl⟩
+
+/-! ## gear train (tier R) -/
+
+/-- B1 + B2, gear train: the states held after the update satisfy `side2 = ratio·side1` and, in every
+component, are the least-squares projection of the pair of reads onto that line. -/
+theorem gear_least_squares (ratio : F) (w : World F) (i1 i2 : Nat) (d1 d2 : Datum (State F)) (hd : i1 ≠ i2)
+    (h1 : w.getState i1 = some d1) (h2 : w.getState i2 = some d2) :
+    ∃ s1 s2 : State F,
+      ((GearTrain.update ratio w i1 i2).t i1).state = some ⟨max d1.time d2.time, s1⟩ ∧
+      ((GearTrain.update ratio w i1 i2).t i2).state = some ⟨max d1.time d2.time, s2⟩ ∧
+      (∀ k, comp k s2 = ratio * comp k s1) ∧
+      (∀ k, comp k s1 = (comp k d1.value + ratio * comp k d2.value) / (ratio ^ 2 + 1)) ∧
+      (∀ (k : PosDer) (a' : F),
+        (comp k d1.value - comp k s1) ^ 2 + (comp k d2.value - comp k s2) ^ 2
+          ≤ (comp k d1.value - a') ^ 2 + (comp k d2.value - ratio * a') ^ 2) ∧
+      (∀ p1 p2 : State F, p2 = State.mulF p1 ratio →
+        sqDist d1.value s1 + sqDist d2.value s2 ≤ sqDist d1.value p1 + sqDist d2.value p2) := by
+  obtain ⟨_, ha, hb, _⟩ := gear_update_both ratio w i1 i2 d1 d2 hd h1 h2
+  have hc : ∀ (k : PosDer) (a' : F),
+      (comp k d1.value - comp k (gearNew1 ratio d1.value d2.value)) ^ 2
+        + (comp k d2.value - comp k (gearNew2 ratio d1.value d2.value)) ^ 2
+        ≤ (comp k d1.value - a') ^ 2 + (comp k d2.value - ratio * a') ^ 2 := by
+    intro k a'
+    simp only [gearNew1, gearNew2, comp_divF, comp_mulF, comp_add, c1_eq]
+    exact scalar_gear_ls _ _ _ _
+  refine ⟨_, _, ha, hb, ?_, ?_, hc, ?_⟩
+  · intro k
+    simp only [gearNew1, gearNew2, comp_divF, comp_mulF, comp_add, c1_eq]; ring
+  · intro k
+    simp only [gearNew1, comp_divF, comp_mulF, comp_add, c1_eq]; ring
+  · intro p1 p2 hp
+    subst hp
+    have e1 := hc .position (comp .position p1)
+    have e2 := hc .velocity (comp .velocity p1)
+    have e3 := hc .acceleration (comp .acceleration p1)
+    simp only [sqDist_eq, comp_mulF] at *
+    have c1' : ∀ u : F, u * ratio = ratio * u := fun u => mul_comm _ _
+    simp only [c1'] at *
+    linarith
+
+/-- B1, gear train -/
+theorem gear_satisfies_constraint (ratio : F) (w : World F) (i1 i2 : Nat) (d1 d2 : Datum (State F))
+    (hd : i1 ≠ i2) (h1 : w.getState i1 = some d1) (h2 : w.getState i2 = some d2) :
+    ∃ s1 s2 : State F,
+      ((GearTrain.update ratio w i1 i2).t i1).state = some ⟨max d1.time d2.time, s1⟩ ∧
+      ((GearTrain.update ratio w i1 i2).t i2).state = some ⟨max d1.time d2.time, s2⟩ ∧
+      s2 = State.mulF s1 ratio := by
+  obtain ⟨s1, s2, ha, hb, hc, _⟩ := gear_least_squares ratio w i1 i2 d1 d2 hd h1 h2
+  refine ⟨s1, s2, ha, hb, ?_⟩
+  apply state_ext; intro k; rw [hc k, comp_mulF, mul_comm]
+
+/-- B3, gear train: reads that already satisfy `side2 = ratio·side1` are reproduced unchanged -/
+theorem gear_fixed_on_constraint (ratio : F) (w : World F) (i1 i2 : Nat) (d1 d2 : Datum (State F))
+    (hd : i1 ≠ i2) (h1 : w.getState i1 = some d1) (h2 : w.getState i2 = some d2)
+    (hc : d2.value = State.mulF d1.value ratio) :
+    ((GearTrain.update ratio w i1 i2).t i1).state = some ⟨max d1.time d2.time, d1.value⟩ ∧
+    ((GearTrain.update ratio w i1 i2).t i2).state = some ⟨max d1.time d2.time, d2.value⟩ := by
+  obtain ⟨_, ha, hb, _⟩ := gear_update_both ratio w i1 i2 d1 d2 hd h1 h2
+  have hD : (ratio * ratio + 1 : F) ≠ 0 := by have := mul_self_nonneg ratio; intro h; linarith
+  have e1 : gearNew1 ratio d1.value d2.value = d1.value := by
+    apply state_ext; intro k
+    simp only [gearNew1, hc, comp_divF, comp_mulF, comp_add, c1_eq]
+    field_simp
+    ring
+  have e2 : gearNew2 ratio d1.value d2.value = d2.value := by
+    apply state_ext; intro k
+    simp only [gearNew2, hc, comp_divF, comp_mulF, comp_add, c1_eq]
+    field_simp
+    ring
+  rw [ha, hb, e1, e2]
+  exact ⟨rfl, rfl⟩
+
+/-- B4, one-sided propagation through a gear train (`ratio ≠ 0`): the value written on the empty side and
+the read on the other side satisfy `side2 = ratio·side1`, and the two directions are mutually inverse. -/
+theorem gear_one_sided_constraint (ratio : F) (hr : ratio ≠ 0) (w : World F) (i1 i2 : Nat) (d : Datum (State F)) :
+    (w.getState i1 = some d → w.getState i2 = none →
+      ∃ s2, ((GearTrain.update ratio w i1 i2).t i2).state = some ⟨d.time, s2⟩ ∧
+        s2 = State.mulF d.value ratio ∧ State.divF s2 ratio = d.value) ∧
+    (w.getState i1 = none → w.getState i2 = some d →
+      ∃ s1, ((GearTrain.update ratio w i1 i2).t i1).state = some ⟨d.time, s1⟩ ∧
+        s1 = State.divF d.value ratio ∧ d.value = State.mulF s1 ratio) := by
+  constructor
+  · intro h1 h2
+    obtain ⟨_, ha, _⟩ := gear_update_one_left ratio w i1 i2 d h1 h2
+    refine ⟨_, ha, rfl, ?_⟩
+    apply state_ext; intro k; simp only [comp_divF, comp_mulF]; field_simp
+  · intro h1 h2
+    obtain ⟨_, ha, _⟩ := gear_update_one_right ratio w i1 i2 d h1 h2
+    refine ⟨_, ha, rfl, ?_⟩
+    apply state_ext; intro k; simp only [comp_divF, comp_mulF]; field_simp
+
+end R
 end Rrtk.Thm.C08
